@@ -122,7 +122,8 @@ pub fn ref_bounds_violation(spec: &Spec, v: &[f64], tol: f64, tol_so3: f64) -> O
                 }
                 let mut ok = false;
                 let mut best = f64::INFINITY;
-                for k in [-1.0, 0.0, 1.0] {
+                // (states may carry un-normalised angles several turns away)
+                for k in [-4.0, -3.0, -2.0, -1.0, 0.0, 1.0, 2.0, 3.0, 4.0] {
                     let y = a + k * TWO_PI;
                     let ex = (lo - y).max(y - hi);
                     if ex <= tol {
